@@ -263,6 +263,17 @@ class SymCtx:
     def ident(self, x):
         return x
 
+    def fresh_lib(self):
+        """a brand-new copy of the library (no module-level state shared with earlier runs)"""
+        from . import loader
+
+        old = getattr(self, "_fresh_sp", None)
+        if old is not None:
+            old.close()
+        sp = loader.ShadowPackage()
+        self._fresh_sp = sp
+        return Lib(sp.module, sp.root_module())
+
 
 class RealCtx:
     mode = "real"
@@ -351,6 +362,12 @@ class RealCtx:
 
     def ident(self, x):
         return x
+
+    def fresh_lib(self):
+        from . import loader
+
+        mods = loader.load_real(fresh=True)
+        return Lib(lambda n: mods[f"{loader.PKG}.{n}"], mods[loader.PKG])
 
 
 def run_real(body, lib, shape, inputs):
